@@ -43,7 +43,7 @@ GRAPHS = {   # cfg -> (mode, N chunks, tier)
     "g_conc_same": ("cache", 3, "quick"),
     "g_conc_diff_q": ("cache", 2, "quickonly"),
     "g_conc_diff": ("cache", 3, "thorough"),
-    "g_seq_codegen": ("codegen", 2, "directed"),      # tour only in thorough, directed paths always
+    "g_seq_codegen": ("codegen", 2, "directed"),      # shortest paths to every finish class (+ every crash point in thorough)
     "gi_seq_cache": ("cache", 3, "thorough"),
     "gi_conc_diff": ("cache", 3, "thorough"),
 }
@@ -548,9 +548,9 @@ def run(ctx):
             inits = [k for k, s in g.states.items() if _is_idle_state(s) and s["crashes"] == 0 and _looks_initial(s, n)]
             if not inits:
                 raise MachineryError("no initial state recognised in %s" % gname)
-            tour = tier != "directed" or thorough
+            tour = tier != "directed"        # codegen: shortest paths to every finish class (thorough: and every crash point)
             plist = _paths_for(g, inits, thorough, ctx.seed, tour, (40 if thorough else 10) if tour else 0,
-                               crash_classes=tour)
+                               crash_classes=tour or thorough)
             size = calibrate(mode, n)
             for kind, p in plist:
                 steps = g.steps(p)
@@ -586,7 +586,7 @@ def run(ctx):
         t0 = time.time()
         # byte offsets
         jobs = []
-        for mode, oname in ([("cache", "O1"), ("cache", "O2"), ("cache", "O3"), ("codegen", "O1")] if thorough else [("cache", "O1")]):
+        for mode, oname in ([("cache", "O1"), ("cache", "O2"), ("codegen", "O1")] if thorough else [("cache", "O1")]):
             ln = _cache_len(mode, oname)
             if thorough:
                 offs = list(range(ln))
